@@ -84,6 +84,28 @@ def h_whitener(B, n=4, p=2, alpha=0.5, cplx=False, q=None, illcond=False):
         B.eq(f"alpha=1/{qq}: (covariance of whitened data)^{qq} == C", P_, C)
 
 
+def h_whitener_refit(B, n=4, p=2, alpha=0.0):
+    """one Whitener object fitted twice (as a re-fitted CCA / CPCCA model does): everything must belong to the second fit"""
+    A = _centred(B, n, p)
+    X = B.array((n, p), "z")
+    X = X - X.mean(axis=0)
+    X = xr.DataArray(X, dims=("sample", "feature"), coords={"sample": list(range(n)), "feature": list(range(p))}, name="v_z")
+    W = Whitener(alpha=alpha)
+    AT = W.fit_transform(A)
+    W.inverse_transform_data(AT)  # the inverse map of the first fit has been used
+    B.covers("Whitener.fit (second fit on the same object)")
+    XT = W.fit_transform(X)
+    T = W.T.transpose("feature", "mode").data
+    Ti = W.Tinv.transpose("mode", "feature").data
+    B.eq("after a second fit: T Tinv == I", T @ Ti, np.eye(p))
+    B.eq("after a second fit: inverse_transform_data(transform(X)) == X", W.inverse_transform_data(XT).transpose("sample", "feature").data, X.data)
+    Pt = xr.DataArray(B.array((p, 2), "P"), dims=("feature", "mode"), coords={"feature": list(range(p)), "mode": [1, 2]})
+    B.eq("after a second fit: inverse_transform_components(transform_components(P)) == P", W.inverse_transform_components(W.transform_components(Pt)).transpose("feature", "mode").data, Pt.data)
+    fresh = Whitener(alpha=alpha)
+    FT = fresh.fit_transform(X)
+    B.eq("after a second fit: transform == that of a fresh whitener", XT.data, FT.data)
+
+
 def h_pca(B, n=4, p=3, k="all", cplx=False):
     X = _centred(B, n, p, cplx)
     P = PCA(n_modes=k, use_pca=True, compute_eagerly=True, solver_kwargs={})
@@ -125,6 +147,7 @@ def configs(tier):
         add("h_whitener", f"Whitener|alpha={alpha}|n4p2", n=4, p=2, alpha=alpha)
     add("h_whitener", "Whitener|alpha=0|complex|n4p2", n=4, p=2, alpha=0, cplx=True)
     add("h_whitener", "Whitener|alpha=0|ill-conditioned witness (cond 1e5)|n4p2", n=4, p=2, alpha=0, illcond=True)
+    add("h_whitener_refit", "Whitener|alpha=0|second fit on the same object", alpha=0.0)
     add("h_pca", "PCA|all|n4p3", n=4, p=3, k="all")
     add("h_pca", "PCA|k=2|n4p3", n=4, p=3, k=2)
     add("h_pca", "PCA|all|complex|n4p2", n=4, p=2, k="all", cplx=True)
@@ -135,4 +158,5 @@ def configs(tier):
         add("h_whitener", "Whitener|alpha=0.5|n5p3", n=5, p=3, alpha=0.5)
         add("h_whitener", "Whitener|alpha=1/3|n4p2", n=4, p=2, alpha=1 / 3, q=3)
         add("h_pca", "PCA|k=2|n5p3", n=5, p=3, k=2)
+        add("h_whitener_refit", "Whitener|alpha=0.5|second fit on the same object", alpha=0.5)
     return out
